@@ -177,7 +177,7 @@ Proof.
   destruct m1, m2; reflexivity.
 Qed.
 
-Record negotiated_ok (ci cr : config) (ans : Z * Z) (si sr : session) : Prop := {
+Record negotiated_ok (b : bool) (ci cr : config) (ans : Z * Z) (si sr : session) : Prop := {
   ng_init_i : s_initiator si = true;
   ng_init_r : s_initiator sr = false;
   ng_sc : s_sc si = c_sc ci && c_sc cr;
@@ -189,20 +189,20 @@ Record negotiated_ok (ci cr : config) (ans : Z * Z) (si sr : session) : Prop := 
   ng_rkd : s_rkd si = snd ans /\ s_rkd sr = snd ans;
   ng_subset : Z.land (fst ans) (Z.lnot (c_ikd ci)) = 0 /\ Z.land (snd ans) (Z.lnot (c_rkd ci)) = 0;
   ng_method : s_method si = s_method sr;
-  ng_exp_i : s_expected si = expected (s_sc si) false (s_rkd si);
-  ng_exp_r : s_expected sr = expected (s_sc sr) false (s_ikd sr)
+  ng_exp_i : s_expected si = expected (s_sc si) b (s_rkd si);
+  ng_exp_r : s_expected sr = expected (s_sc sr) b (s_ikd sr)
 }.
 
-Lemma negotiation : forall ci cr ans sr si,
-  responder_session false cr ans (request_of ci) = Some sr ->
-  initiator_session false ci (response_of cr sr) = NegOk si ->
-  negotiated_ok ci cr ans si sr.
+Lemma negotiation_b : forall b ci cr ans sr si,
+  responder_session b cr ans (request_of ci) = Some sr ->
+  initiator_session b ci (response_of cr sr) = NegOk si ->
+  negotiated_ok b ci cr ans si sr.
 Proof.
-  intros ci cr ans sr si Hr Hi.
+  intros b ci cr ans sr si Hr Hi.
   unfold responder_session, request_of in Hr. cbn [p_io p_oob p_auth p_ikd p_rkd] in Hr.
   destruct (auth_flags (c_bonding ci) (c_sc ci) (c_mitm ci) false) as (Fb & Fs & Fm & Fc).
   rewrite Fb, Fs in Hr.
-  destruct (choose_method false cr (c_sc cr && c_sc ci) false _ (c_io ci) (c_io cr)) as [[mr dr]|] eqn:Hmr;
+  destruct (choose_method b cr (c_sc cr && c_sc ci) false _ (c_io ci) (c_io cr)) as [[mr dr]|] eqn:Hmr;
     [|discriminate].
   injection Hr as Hr. subst sr.
   unfold initiator_session, response_of in Hi.
@@ -212,7 +212,7 @@ Proof.
   rewrite Gb, Gs in Hi.
   assert (Hsc : c_sc ci && (c_sc cr && c_sc ci) = c_sc cr && c_sc ci) by (destruct (c_sc ci), (c_sc cr); reflexivity).
   rewrite Hsc in Hi.
-  destruct (choose_method false ci (c_sc cr && c_sc ci) true _ (c_io ci) (c_io cr)) as [[mi di]|] eqn:Hmi;
+  destruct (choose_method b ci (c_sc cr && c_sc ci) true _ (c_io ci) (c_io cr)) as [[mi di]|] eqn:Hmi;
     [|discriminate].
   destruct (negb (Z.land (fst ans) (Z.lnot (c_ikd ci)) =? 0) || negb (Z.land (snd ans) (Z.lnot (c_rkd ci)) =? 0)) eqn:Hsub;
     [discriminate|].
@@ -226,7 +226,8 @@ Proof.
     rewrite (Ho _ (c_oob ci) (c_oob cr)) in Hmi.
     destruct ((c_sc cr && c_sc ci) && (c_oob cr || c_oob ci) || negb (c_sc cr && c_sc ci) && (c_oob cr && c_oob ci)).
     - congruence.
-    - rewrite (decide_mitm_sym (c_mitm ci) (c_mitm cr) _ _ _ _ (auth_req_of (c_bonding ci) (c_sc ci) (c_mitm ci) false)) in Hmi
+    - destruct b; [unfold decide in Hmr, Hmi; congruence|].
+      rewrite (decide_mitm_sym (c_mitm ci) (c_mitm cr) _ _ _ _ (auth_req_of (c_bonding ci) (c_sc ci) (c_mitm ci) false)) in Hmi
         by assumption.
       pose proof (decide_method_role (c_mitm cr) (c_sc cr && c_sc ci) false false
                     (auth_req_of (c_bonding ci) (c_sc ci) (c_mitm ci) false) (c_io ci) (c_io cr)) as Hd.
@@ -236,6 +237,12 @@ Proof.
     try (destruct (c_sc ci), (c_sc cr); reflexivity);
     try (destruct (c_bonding ci), (c_bonding cr); reflexivity).
 Qed.
+
+Lemma negotiation : forall ci cr ans sr si,
+  responder_session false cr ans (request_of ci) = Some sr ->
+  initiator_session false ci (response_of cr sr) = NegOk si ->
+  negotiated_ok false ci cr ans si sr.
+Proof. exact (negotiation_b false). Qed.
 
 (* ---- what one side waits for is what the other sends *)
 Lemma expectations_match : forall sc bredr kd, expected sc bredr kd = distributed sc bredr kd.
@@ -254,13 +261,37 @@ Qed.
 Lemma consume_self : forall l, consume l l = RxDone false.
 Proof. destruct l; [reflexivity|]. apply consume_ne_self. discriminate. Qed.
 
-Lemma phase3_completes : forall ci cr ans si sr,
-  negotiated_ok ci cr ans si sr -> phase3 false si sr = (Completed, Completed).
+Lemma phase3_completes_b : forall b ci cr ans si sr,
+  negotiated_ok b ci cr ans si sr -> phase3 b si sr = (Completed, Completed).
 Proof.
-  intros ci cr ans si sr N. destruct N.
+  intros b ci cr ans si sr N. destruct N.
   unfold phase3. rewrite ng_exp_i0, ng_exp_r0, !expectations_match.
   destruct ng_ikd0 as [I1 I2]. destruct ng_rkd0 as [R1 R2].
   rewrite ng_sc_eq0, R1, R2, consume_self, I1, I2, consume_self. reflexivity.
+Qed.
+
+Lemma phase3_completes : forall ci cr ans si sr,
+  negotiated_ok false ci cr ans si sr -> phase3 false si sr = (Completed, Completed).
+Proof. exact (phase3_completes_b false). Qed.
+
+(* CTKD over BR/EDR: the method is CTKD on both sides and the key distribution completes on
+   both sides for every pair of masks (fixes/D13e.patch: a side that expects nothing completes) *)
+Lemma ctkd_flow_completes : forall ci cr ans sr si,
+  responder_session true cr ans (request_of ci) = Some sr ->
+  initiator_session true ci (response_of cr sr) = NegOk si ->
+  phase3 true si sr = (Completed, Completed) /\
+  (c_oob ci || c_oob cr = false -> s_method si = PM_CTKD_OVER_CLASSIC /\ s_method sr = PM_CTKD_OVER_CLASSIC).
+Proof.
+  intros ci cr ans sr si Hr Hi. pose proof (negotiation_b true _ _ _ _ _ Hr Hi) as N.
+  split; [exact (phase3_completes_b true _ _ _ _ _ N)|].
+  intro Hoob. apply orb_false_iff in Hoob. destruct Hoob as [O1 O2].
+  pose proof (ng_method _ _ _ _ _ _ N) as Hm. rewrite Hm.
+  cut (s_method sr = PM_CTKD_OVER_CLASSIC); [auto|].
+  unfold responder_session in Hr.
+  destruct (choose_method true cr _ false (request_of ci) _ _) as [[m d]|] eqn:Hc; [|discriminate].
+  injection Hr as Hr. subst sr. cbn [s_method].
+  unfold choose_method, request_of in Hc. cbn [p_oob] in Hc. rewrite O1, O2 in Hc.
+  rewrite !andb_false_r in Hc. cbn [orb] in Hc. unfold decide in Hc. congruence.
 Qed.
 
 (* ---- the same, by complete evaluation over all 16 x 16 masks on each side, SC and bonding
@@ -532,12 +563,12 @@ Section ProtocolProofs.
       e_accept e = true ->
       pair_case e ci cr (failed_both V reason None (Some sr))
   | PC_phase2_fail : forall si sr ans reason,
-      e_accept e = true -> negotiated_ok ci cr ans si sr ->
+      e_accept e = true -> negotiated_ok false ci cr ans si sr ->
       responder_session false cr ans (request_of ci) = Some sr ->
       P2 e si sr = P2Fail reason ->
       pair_case e ci cr (failed_both V reason (Some si) (Some sr))
   | PC_done : forall si sr ans a b c d,
-      e_accept e = true -> negotiated_ok ci cr ans si sr ->
+      e_accept e = true -> negotiated_ok false ci cr ans si sr ->
       responder_session false cr ans (request_of ci) = Some sr ->
       P2 e si sr = P2Ok a b c d ->
       pair_case e ci cr
@@ -589,7 +620,7 @@ Section ProtocolProofs.
 
   (* ---- phase 2 *)
   Lemma phase2_split : forall e ci cr ans si sr,
-    negotiated_ok ci cr ans si sr ->
+    negotiated_ok false ci cr ans si sr ->
     P2 e si sr = if is_method si PM_OOB then P2Unmodelled
                  else if s_sc si then P2S e si sr else P2L e si sr.
   Proof.
@@ -729,7 +760,7 @@ Section ProtocolProofs.
     intros e s own cmds peer H. unfold STORED, stored, any_auth in H.
     cbn [ks_ltk ks_ltk_central ks_ltk_peripheral ks_irk ks_csrk ks_link_key] in H.
     destruct (authenticated_flag e s); [reflexivity|]. exfalso.
-    destruct (s_sc s || false), (mem CMD_ENCRYPTION_INFORMATION cmds), (has_flag (own_kd s) KD_ENC_KEY),
+    destruct (s_sc s), (mem CMD_ENCRYPTION_INFORMATION cmds), (has_flag (own_kd s) KD_ENC_KEY),
       (mem CMD_IDENTITY_INFORMATION cmds), (mem CMD_SIGNING_INFORMATION cmds), (has_flag (own_kd s) KD_LINK_KEY);
       cbn in H; discriminate.
   Qed.
@@ -809,7 +840,7 @@ Section ProtocolProofs.
     inversion C as [Ha|sr0 reason Ha|si0 sr0 ans reason Ha N Hresp Hp|si0 sr0 ans a b c d Ha N Hresp Hp];
       subst; cbn [r_store] in Hst; try (destruct Hst; discriminate).
     exists si0, sr0. cbn [r_outcome]. do 4 (split; [reflexivity|]).
-    pose proof (ng_method _ _ _ _ _ N) as Hmeq. split; [assumption|].
+    pose proof (ng_method _ _ _ _ _ _ N) as Hmeq. split; [assumption|].
     (* the flag is the same function of the (equal) methods on both sides *)
     assert (Hflag : authenticated_flag e si0 = true).
     { destruct Hst as [Hst|Hst]; injection Hst as Hst; subst ks; apply stored_auth in Hauth.
@@ -829,7 +860,7 @@ Section ProtocolProofs.
       destruct Hpn as [Hm|Hm]; rewrite Hm; discriminate. }
     split.
     - intro Hnc. pose proof (method_nc_sc _ _ _ _ Hresp ltac:(congruence)) as Hsc.
-      rewrite (ng_sc_eq _ _ _ _ _ N) in Hsc. rewrite Hsc in Hp.
+      rewrite (ng_sc_eq _ _ _ _ _ _ N) in Hsc. rewrite Hsc in Hp.
       unfold P2S, phase2_sc, is_method, user_ok, is_method in Hp. rewrite <- Hmeq, Hnc in Hp.
       cbn [Z.eqb PM_NUMERIC_COMPARISON PM_PASSKEY PM_JUST_WORKS orb] in Hp.
       change (PM_NUMERIC_COMPARISON =? PM_PASSKEY) with false in Hp.
@@ -889,13 +920,13 @@ Section ProtocolProofs.
     injection Hi as <-. injection Hr as <-.
     rewrite (phase2_split _ _ _ _ _ _ N) in Hp.
     destruct (is_method si0 PM_OOB); [discriminate|].
-    pose proof (ng_sc_eq _ _ _ _ _ N) as Hsc.
+    pose proof (ng_sc_eq _ _ _ _ _ _ N) as Hsc.
     unfold STORED, stored, central_request, peripheral_reply.
     cbn [ks_ltk ks_ltk_central ks_ltk_peripheral k_value]. rewrite Hsc.
     destruct (s_sc si0) eqn:Hs; cbn [orb].
     - destruct (sc_ok _ _ _ _ _ _ _ Hp) as (_ & E & _). subst d.
       split; intros k Hk; exact Hk.
-    - unfold own_kd. rewrite (ng_init_i _ _ _ _ _ N), (ng_init_r _ _ _ _ _ N).
+    - unfold own_kd. rewrite (ng_init_i _ _ _ _ _ _ N), (ng_init_r _ _ _ _ _ _ N).
       rewrite !mem_enc_distributed.
       split; intros k Hk.
       + destruct (has_flag (s_rkd sr0) KD_ENC_KEY); [exact Hk|discriminate].
@@ -916,7 +947,7 @@ Section ProtocolProofs.
     inversion C as [Ha|sr0 reason Ha|si0 sr0 ans reason Ha N Hresp Hp|si0 sr0 ans a b c d Ha N Hresp Hp];
       subst; cbn [r_store] in Hi, Hr; try discriminate.
     injection Hi as <-. injection Hr as <-.
-    pose proof (ng_sc_eq _ _ _ _ _ N) as Hsc.
+    pose proof (ng_sc_eq _ _ _ _ _ _ N) as Hsc.
     unfold STORED, stored, central_request. cbn [ks_ltk ks_ltk_central k_value]. rewrite Hsc.
     destruct (s_sc s_i) eqn:Hs; cbn [orb].
     - split; split; intros; auto; discriminate.
@@ -925,13 +956,40 @@ Section ProtocolProofs.
         split; split; intros X; try discriminate; auto; try (destruct X; discriminate); congruence.
   Qed.
 
+  (* a BR/EDR link key is derived only after secure connections, and then both sides derive the
+     same one (fixes/D13d.patch: legacy pairing derived it from each side's own LTK) *)
+  Lemma link_key_store_shared : forall e ci cr i r s_i s_r link ki kr,
+    PAIR e ci cr = Res i r (Some s_i) (Some s_r) link ->
+    r_store i = Some ki -> r_store r = Some kr ->
+    (s_sc s_i = false -> ks_link_key ki = None /\ ks_link_key kr = None) /\
+    (forall a b, ks_link_key ki = Some a -> ks_link_key kr = Some b -> k_value a = k_value b).
+  Proof.
+    intros e ci cr i r s_i s_r link ki kr H Hi Hr.
+    assert (Hne : PAIR e ci cr <> ResError) by (rewrite H; discriminate).
+    pose proof (pair_cases e ci cr Hne) as C. rewrite H in C.
+    inversion C as [Ha|sr0 reason Ha|si0 sr0 ans reason Ha N Hresp Hp|si0 sr0 ans a b c d Ha N Hresp Hp];
+      subst; cbn [r_store] in Hi, Hr; try discriminate.
+    injection Hi as <-. injection Hr as <-.
+    rewrite (phase2_split _ _ _ _ _ _ N) in Hp.
+    destruct (is_method s_i PM_OOB); [discriminate|].
+    pose proof (ng_sc_eq _ _ _ _ _ _ N) as Hsc.
+    unfold STORED, stored. cbn [ks_link_key]. rewrite Hsc.
+    destruct (s_sc s_i) eqn:Hs.
+    - destruct (sc_ok _ _ _ _ _ _ _ Hp) as (_ & E & _). subst d.
+      split; [discriminate|]. intros x y Hx Hy.
+      destruct (has_flag (own_kd s_i) KD_LINK_KEY && true && negb false); [|discriminate].
+      destruct (has_flag (own_kd s_r) KD_LINK_KEY && true && negb false); [|discriminate].
+      injection Hx as <-. injection Hy as <-. reflexivity.
+    - rewrite !andb_false_r. cbn [andb]. split; [auto|]. intros x y Hx. discriminate.
+  Qed.
+
   (* ---- a failed check never yields stored keys *)
   Definition nothing_stored (i r : side_result V) (reason : Z) : Prop :=
     r_outcome i = Failed reason /\ r_outcome r = Failed reason /\ r_store i = None /\ r_store r = None.
 
   Lemma phase2_fail_stores_nothing : forall e ci cr i r s_i s_r link ans reason,
     PAIR e ci cr = Res i r (Some s_i) (Some s_r) link ->
-    negotiated_ok ci cr ans s_i s_r ->
+    negotiated_ok false ci cr ans s_i s_r ->
     P2 e s_i s_r = P2Fail reason -> nothing_stored i r reason.
   Proof.
     intros e ci cr i r s_i s_r link ans reason H N Hf.
@@ -943,7 +1001,7 @@ Section ProtocolProofs.
   Qed.
 
   Lemma pair_negotiated : forall e ci cr i r s_i s_r link,
-    PAIR e ci cr = Res i r (Some s_i) (Some s_r) link -> exists ans, negotiated_ok ci cr ans s_i s_r.
+    PAIR e ci cr = Res i r (Some s_i) (Some s_r) link -> exists ans, negotiated_ok false ci cr ans s_i s_r.
   Proof.
     intros e ci cr i r s_i s_r link H.
     assert (Hne : PAIR e ci cr <> ResError) by (rewrite H; discriminate).
@@ -975,7 +1033,7 @@ Section ProtocolProofs.
       exfalso. apply Hneq. apply passkey_bits_inj; auto.
       intros k Hk. exact (rounds_bits _ _ _ _ _ _ _ B1 B2 Hr k Hk).
     - unfold P2L, phase2_legacy, legacy_tk, is_method.
-      rewrite <- (ng_method _ _ _ _ _ N), Hm, Z.eqb_refl, Hpi, Hpr. cbn [option_map].
+      rewrite <- (ng_method _ _ _ _ _ _ N), Hm, Z.eqb_refl, Hpi, Hpr. cbn [option_map].
       rewrite B1, B2, !xmit_false.
       destruct (veqb (c1 (tk_of_passkey pi) (n_rand ni 0%nat)) (c1 (tk_of_passkey pr) (n_rand ni 0%nat))) eqn:E;
         [|reflexivity].
@@ -1027,7 +1085,7 @@ Section ProtocolProofs.
              rewrite (dhk_tampered _ _ _ _ Ht) in Hp. discriminate.
       + assert (exists tk, legacy_tk V zero tk_of_passkey e s_i (e_typed_i e) = Some tk /\
                            legacy_tk V zero tk_of_passkey e s_r (e_typed_r e) = Some tk) as (tk & T1 & T2).
-        { unfold legacy_tk, is_method. rewrite <- (ng_method _ _ _ _ _ N).
+        { unfold legacy_tk, is_method. rewrite <- (ng_method _ _ _ _ _ _ N).
           destruct (Z.eqb_spec (s_method s_i) PM_PASSKEY) as [Hm|Hm].
           - destruct (Hsame Hm) as (p & P1 & P2'). rewrite P1, P2'. cbn [option_map]. eauto.
           - eauto. }
@@ -1046,7 +1104,7 @@ Section ProtocolProofs.
     destruct (pair_negotiated _ _ _ _ _ _ _ _ H) as (ans & N).
     apply (phase2_fail_stores_nothing _ _ _ _ _ _ _ _ _ _ H N).
     rewrite (phase2_split _ _ _ _ _ _ N), Hsc.
-    unfold P2S, phase2_sc, user_ok, is_method. rewrite <- (ng_method _ _ _ _ _ N).
+    unfold P2S, phase2_sc, user_ok, is_method. rewrite <- (ng_method _ _ _ _ _ _ N).
     destruct Hu as [[Hm Hu]|[Hm Hu]]; rewrite Hm.
     - change (PM_JUST_WORKS =? PM_OOB) with false. change (PM_JUST_WORKS =? PM_PASSKEY) with false.
       change (PM_JUST_WORKS =? PM_JUST_WORKS) with true. cbn [orb].
@@ -1180,6 +1238,16 @@ Section Toolbox.
     intros e ci cr i r s_i s_r link ki kr. unfold pair_with. apply reconnect_available.
   Qed.
 
+  Lemma tb_link_key_store_shared : forall e ci cr i r s_i s_r link ki kr,
+    pair_with T e ci cr = Res i r (Some s_i) (Some s_r) link ->
+    r_store i = Some ki -> r_store r = Some kr ->
+    (s_sc s_i = false -> ks_link_key ki = None /\ ks_link_key kr = None) /\
+    (forall a b, ks_link_key ki = Some a -> ks_link_key kr = Some b -> k_value a = k_value b).
+  Proof.
+    destruct Tok as (H1 & H2 & H3 & H4 & H5 & H6). intros e ci cr i r s_i s_r link ki kr.
+    unfold pair_with. apply link_key_store_shared; assumption.
+  Qed.
+
   Lemma tb_wrong_passkey_stores_nothing : forall e ci cr i r s_i s_r link pi pr,
     pair_with T e ci cr = Res i r (Some s_i) (Some s_r) link ->
     s_method s_i = PM_PASSKEY ->
@@ -1217,6 +1285,29 @@ Section Toolbox.
     pair_with T e ci cr = failed_both _ ERR_PAIRING_NOT_SUPPORTED None None.
   Proof. intros e ci cr. unfold pair_with. apply reject_stores_nothing. Qed.
 End Toolbox.
+
+(* the property, end to end, for the modelled flows *)
+Lemma pairing_end_to_end : forall T, toolbox_ok T -> forall e ci cr i r si sr link,
+  pair_with T e ci cr = Res i r si sr link ->
+  (r_outcome i = Completed /\ r_outcome r = Completed /\
+   exists ki kr, r_store i = Some ki /\ r_store r = Some kr /\
+     (forall k, central_request _ ki = Some k -> peripheral_reply _ kr = Some k) /\
+     (forall k, central_request _ kr = Some k -> peripheral_reply _ ki = Some k) /\
+     (e_bad_confirm_i e = false -> e_bad_confirm_r e = false ->
+      forall a b, link = Some (a, b) -> a = b))
+  \/ (exists reason, nothing_stored_tb i r reason).
+Proof.
+  intros T Tok e ci cr i r si sr link H.
+  destruct (tb_both_or_neither T e ci cr i r si sr link H) as [(A & B & C & D)|F]; [left|right; exact F].
+  split; [exact A|]. split; [exact B|].
+  destruct (r_store i) as [ki|] eqn:Ei; [|congruence].
+  destruct (r_store r) as [kr|] eqn:Er; [|congruence].
+  exists ki, kr. split; [reflexivity|]. split; [reflexivity|].
+  destruct (tb_reconnect_same_key T Tok e ci cr i r si sr link ki kr H Ei Er) as (R1 & R2).
+  split; [exact R1|]. split; [exact R2|].
+  intros B1 B2 a b Hl. subst link.
+  exact (tb_link_key_shared T Tok e ci cr i r si sr a b H B1 B2).
+Qed.
 
 (* ================================================================== 6. the code before the fixes *)
 (* D13a: with the original bookkeeping of Session.on_pairing (stored_orig) the stores of a
@@ -1258,10 +1349,31 @@ Proof.
   unfold stored, any_auth in H.
   cbn [ks_ltk ks_ltk_central ks_ltk_peripheral ks_irk ks_csrk ks_link_key] in H.
   destruct (authenticated_flag e s); [reflexivity|]. exfalso.
-  destruct (s_sc s || true), (mem CMD_ENCRYPTION_INFORMATION cmds), (has_flag (own_kd s) KD_ENC_KEY),
+  destruct (s_sc s), (mem CMD_ENCRYPTION_INFORMATION cmds), (has_flag (own_kd s) KD_ENC_KEY),
     (mem CMD_IDENTITY_INFORMATION cmds), (mem CMD_SIGNING_INFORMATION cmds), (has_flag (own_kd s) KD_LINK_KEY);
     cbn in H; discriminate.
 Qed.
+
+Lemma ctkd_flow_store_authenticated : forall (V : Type) e s lk ltk cmds ks,
+  s_method s = PM_CTKD_OVER_CLASSIC ->
+  ctkd_store V e s lk ltk cmds = Some ks -> any_auth ks = true -> e_lk_auth e = true.
+Proof.
+  intros V e s lk ltk cmds ks Hm H Ha. rewrite <- (ctkd_authenticated_inherits e s Hm).
+  unfold ctkd_store in H. destruct (has_flag (own_kd s) KD_ENC_KEY); [|discriminate].
+  injection H as <-. unfold any_auth in Ha.
+  cbn [ks_ltk ks_ltk_central ks_ltk_peripheral ks_irk ks_csrk ks_link_key] in Ha.
+  destruct (authenticated_flag e s); [reflexivity|]. exfalso.
+  destruct (mem CMD_IDENTITY_INFORMATION cmds), (mem CMD_SIGNING_INFORMATION cmds); cbn in Ha; discriminate.
+Qed.
+
+(* D13f (known): a side whose own negotiated mask lacks ENC_KEY reports and stores nothing *)
+Lemma ctkd_without_enc_key_refuted : forall (V : Type) e s lk ltk cmds,
+  has_flag (own_kd s) KD_ENC_KEY = false -> ctkd_store V e s lk ltk cmds = None.
+Proof. intros. unfold ctkd_store. rewrite H. reflexivity. Qed.
+
+Lemma ctkd_with_enc_key_stores : forall (V : Type) e s lk ltk cmds,
+  has_flag (own_kd s) KD_ENC_KEY = true -> ctkd_store V e s lk ltk cmds <> None.
+Proof. intros. unfold ctkd_store. rewrite H. discriminate. Qed.
 
 Lemma ctkd_authenticated_refuted_orig :
   let s := mkSession true true true false PM_CTKD_OVER_CLASSIC false 3 3 [] in
